@@ -134,7 +134,8 @@ def _parse_composition_keywords(
             # Extract mapping if present
             mapping = None
             if "mapping" in disc_node and isinstance(disc_node["mapping"], Mapping):
-                mapping = dict(disc_node["mapping"])
+                # Discriminator values are strings on the wire; YAML authors may leave numeric ones unquoted
+                mapping = {str(key): value for key, value in disc_node["mapping"].items()}
 
             discriminator = IRDiscriminator(property_name=property_name, mapping=mapping)
 
